@@ -27,6 +27,7 @@ import re
 import subprocess
 
 import gen_fwd
+import go2lean_c09
 import vlib
 
 PID = "C09"
@@ -468,6 +469,7 @@ def run(R):
     write_gen(tables, "" if ast_ok else "syntactic inventory FAILED: " + str(ast)[:300])
 
     lean_ok = vlib.step_lean(R, PID)
+    go2lean_c09.step(R)
     if not lean_ok:
         with vlib.LeanLock():
             vlib.lake(["build", "driver"])
@@ -637,6 +639,7 @@ def run(R):
                              "disagreeing_cases_in_this_run": len(bad)}, not alone))
     for what, payload, no_input in sorted(found, key=lambda f: f[2]):      # replayable ones first
         R.violation(what, payload, no_input=no_input)
+    go2lean_c09.report(R, bool(bad))
     if not ast_ok:
         R.violation("syntactic inventory of forwarding header names failed (packages unreadable): " + str(ast)[-300:],
                     {"extractor": str(ast)}, no_input=not bad)
